@@ -14,6 +14,7 @@ Record round := {
   rd_seq : Z;
   rd_prev : option outcome;                          (* hand-built previous outcome, if any *)
   rd_target : gmap Z chandef;                        (* ChannelDefinitionCache of correct nodes *)
+  rd_scripted : bool;                                (* correct observers' observations are scripted (directed histories): no vote check *)
   rd_retire : bool;                                  (* ShouldRetireCache of correct nodes *)
   rd_aos : list (option observation * bool);         (* validated observations as decoded by the implementation; honest? *)
   rd_valid : list (bool * bool);                     (* per observer: (honest?, accepted by ValidateObservation?) *)
@@ -273,7 +274,7 @@ Definition eval_round (h : Z -> chandef -> list Z) (cfgs : list cfg) (a : acc) (
       let retired_now := bool_decide (o_stage prev = Retired) || bool_decide (o_stage next = Retired) in
       let target_ok := verify_defs (fun _ => true) (rd_target rd) && (unique_streams (o_defs prev ∪ rd_target rd) <=? Z.to_nat MaxObservationStreamValuesLength)%nat in
       let budget : option nat :=
-        if hand_built || retired_now || negb target_ok || (honest_n <=? c_f cf)%nat || (seq <=? 1) then None
+        if hand_built || rd_scripted rd || retired_now || negb target_ok || (honest_n <=? c_f cf)%nat || (seq <=? 1) then None
         else if settled then option_map (fun p => Nat.pred (snd p)) (is_conv st)
         else Some (Nat.pred (rounds_needed (o_defs prev) (rd_target rd))) in
       let c14_conv := match budget with
@@ -284,7 +285,7 @@ Definition eval_round (h : Z -> chandef -> list Z) (cfgs : list cfg) (a : acc) (
         (* every correct node's observation is accepted, carries exactly the model's votes, and no correct node refuses *)
         forallb (fun p : bool * bool => negb (fst p) || snd p) (rd_valid rd) &&
         (if hand_built then true else negb (rd_refused rd)) &&
-        (if (seq <=? 1) || hand_built then true else
+        (if (seq <=? 1) || hand_built || rd_scripted rd then true else
          forallb (fun p : observation * bool => if snd p then
                              let '(rm, up) := honest_votes (fun _ => true) prev (rd_target rd) in
                              bool_decide (list_to_set (ob_removes (fst p)) = (list_to_set rm : gset Z)) &&
